@@ -1,9 +1,17 @@
 (** * C10 — optimisers follow their published update rules; Levenberg-Marquardt descends.
     Statements only; proofs are in Proofs/C10.v (Adam, SGD: any carrier [T], any operations, any
     gradient function that preserves the dimension — hence bit for bit on binary64 with the
-    [reverse] tape as gradient) and Proofs/C10_lm.v (LM, exact arithmetic). *)
+    [reverse] tape as gradient) and Proofs/C10_lm.v (LM, exact arithmetic).
+
+    COMPOSED WITH C01 (last section, theorems [C10_..._composed]; proofs in Proofs/C10_compose.v): the inner
+    solves of LM are instantiated by C01's models of [Matrix::solve] / [Matrix::inv] ([mat_solve_vec],
+    [mat_inv], Model/SolveInst.v: always LU) and the hypothesis "the inner solve returns a solution" is
+    discharged from C01's theorems.  Those theorems assume nothing about the inner solves; what remains is
+    a condition on the data along the run: J^T J + mu diag(J^T J) has a left inverse at each iterate. *)
 From Coq Require Import List Arith ZArith Bool Reals.
-From Compute Require Import Base.Ops Base.ListMat Model.Reduce Model.MatMul Model.Optim Spec.Optim Proofs.C10 Proofs.C10_lm.
+From Compute Require Import Base.Ops Base.ListMat Model.Reduce Model.MatMul Model.Subst Model.SolveInst Model.Optim Spec.Optim
+  Proofs.C10 Proofs.C10_lm Proofs.C10_compose.
+From Compute Require Spec.Factor Spec.Solve.
 Import ListNotations.
 
 (** Adam with step budget [k] returns the iterate [j <= k] of Kingma-Ba's bias-corrected recurrence,
@@ -154,3 +162,81 @@ Theorem C10_gram_psd :
     length (dat Jm) = nr Jm * nc Jm -> 0 < nr Jm ->
     mat_mat_dot RO DotTN Jm Jm = Some G -> psd G.
 Proof. exact @gram_psd. Qed.
+
+(** ** Levenberg-Marquardt composed with C01: [solve] := C01's model of [Solve<Vector>::solve]
+    ([mat_solve_vec RO]), [inv] := the data of C01's model of [Matrix::inv] ([mat_inv RO]).
+    [Spec.Solve.nonsingular a n]: the order-n matrix stored in [a] has a left inverse. *)
+
+(** the data condition, unfolded: along the run with C01's solver, for at most [fuel] iterations, the damped
+    normal matrix of every state from which a step is taken has a left inverse *)
+Theorem C10_damped_nonsingular_along_unfold :
+  forall (resid : list R -> option (list R)) (jac1 : list R -> option (list (list R))) (h : lm_hp (T:=R))
+         (fuel : nat) (st : lm_state (T:=R)),
+    damped_nonsingular_along resid jac1 h fuel st =
+    match fuel with
+    | 0 => True
+    | S f =>
+        if lm_stop st then True
+        else Spec.Solve.nonsingular (dat (damp RO (lm_jtj st) (lm_mu st))) (nr (lm_jtj st)) /\
+             match lm_step RO resid jac1 (mat_solve_vec RO) h st with
+             | Some st' => damped_nonsingular_along resid jac1 h f st'
+             | None => True
+             end
+    end.
+Proof. intros resid jac1 h fuel st. destruct fuel; reflexivity. Qed.
+
+(** J^T J as the code builds it is a well-formed square matrix, and damping keeps the shape (so the
+    condition above is about invertibility only) *)
+Theorem C10_normal_matrix_well_formed_square :
+  forall (J : list (list R)) (p : nat) (r : list R) (jtj : matrix (T:=R)) (jtr : list R) (mu : R),
+    normal_eqs RO J p r = Some (jtj, jtr) ->
+    (well_formed jtj = true /\ nr jtj = nc jtj) /\
+    (well_formed (damp RO jtj mu) = true /\ nr (damp RO jtj mu) = nc (damp RO jtj mu)).
+Proof.
+  intros J p r jtj jtr mu H. split; [exact (normal_eqs_wfsq J p r jtj jtr H)|].
+  exact (damp_wfsq jtj mu (normal_eqs_wfsq J p r jtj jtr H)).
+Qed.
+
+(** on such a matrix with a left inverse, C01's [Matrix::solve] returns a solution of the system *)
+Theorem C10_inner_solve_correct_composed :
+  forall (A : matrix (T:=R)) (b d : list R),
+    (well_formed A = true /\ nr A = nc A) /\ Spec.Solve.nonsingular (dat A) (nr A) ->
+    mat_solve_vec RO A b = Some d -> solves A b d.
+Proof. exact lm_solve_exact_at. Qed.
+
+(** LM with C01's LU solve never returns parameters with a larger residual sum of squares than the start
+    point: every step budget, every residual function, every Jacobian; nothing assumed about the solves *)
+Theorem C10_lm_never_worse_composed :
+  forall (resid : list R -> option (list R)) (jac0 jac1 : list R -> option (list (list R))) (h : lm_hp (T:=R))
+         (maxsteps : nat) (ps0 popt cov : list R),
+    (0 <= l_tau h)%R ->
+    (forall st0, lm_init RO resid jac0 h ps0 = Some st0 -> damped_nonsingular_along resid jac1 h maxsteps st0) ->
+    lm RO resid jac0 jac1 (mat_solve_vec RO) (fun m => option_map (@dat R) (mat_inv RO m)) h maxsteps ps0 = Some (popt, cov) ->
+    exists r0 r, resid ps0 = Some r0 /\ resid popt = Some r /\ (dot_raw RO r r <= dot_raw RO r0 r0)%R.
+Proof. exact lm_never_worse_composed. Qed.
+
+(** what is returned: parameters of the right dimension; covariance = rss / (n - p) times what C01's
+    [Matrix::inv] returns on J^T J at the returned point, which IS the inverse whenever J^T J has a left inverse *)
+Theorem C10_lm_result_composed :
+  forall (resid : list R -> option (list R)) (jac0 jac1 : list R -> option (list (list R))) (h : lm_hp (T:=R))
+         (maxsteps : nat) (ps0 popt cov : list R),
+    (forall st0, lm_init RO resid jac0 h ps0 = Some st0 -> damped_nonsingular_along resid jac1 h maxsteps st0) ->
+    lm RO resid jac0 jac1 (mat_solve_vec RO) (fun m => option_map (@dat R) (mat_inv RO m)) h maxsteps ps0 = Some (popt, cov) ->
+    exists r J G g ji,
+      length popt = length ps0 /\ resid popt = Some r /\
+      (jac0 popt = Some J \/ jac1 popt = Some J) /\
+      normal_eqs RO J (length popt) r = Some (G, g) /\
+      option_map (@dat R) (mat_inv RO G) = Some ji /\ length popt <= length r /\
+      cov = map (Rmult (dot_raw RO r r / IZR (Z.of_nat (length r - length popt)))) ji /\
+      (Spec.Solve.nonsingular (dat G) (nr G) -> Spec.Solve.is_right_inverse (dat G) (nr G) ji).
+Proof. exact lm_result_composed. Qed.
+
+(** the data condition is satisfiable: one parameter, nonzero Jacobian (g = J^T J > 0), mu >= 0; and a
+    one-step run needs it at the start state only *)
+Theorem C10_example_composed :
+  (forall g mu : R, (0 < g)%R -> (0 <= mu)%R ->
+     Spec.Solve.nonsingular (dat (damp RO {| nr := 1; nc := 1; dat := [g] |} mu)) 1) /\
+  (forall (resid : list R -> option (list R)) (jac1 : list R -> option (list (list R))) (h : lm_hp (T:=R)) (st : lm_state (T:=R)),
+     Spec.Solve.nonsingular (dat (damp RO (lm_jtj st) (lm_mu st))) (nr (lm_jtj st)) ->
+     damped_nonsingular_along resid jac1 h 1 st).
+Proof. exact (conj damped_1x1_nonsingular damped_nonsingular_along_one). Qed.
